@@ -12,6 +12,8 @@ import (
 	"go.lstv.dev/util/uu"
 	"pgregory.net/rapid"
 
+	"verifharness/ref"
+
 	"verifharness/vkit"
 )
 
@@ -546,6 +548,21 @@ func TestCheck(t *testing.T) {
 		})
 	}
 	r.Sampled()
+
+	r.Phase(fmt.Sprintf("W: %d conventional special texts (null, nil, the nil UUID, braces, every prefix of urn:uuid:, ...) x 4 rule sets x limits", len(ref.ConventionalTexts)), func() {
+		for _, lim := range []int{0, -1, 3} {
+			restore := setLimit(lim)
+			r.Serial(func(w *vkit.W) {
+				for _, text := range ref.ConventionalTexts {
+					for _, rule := range rules {
+						judge(Case{Kind: "text", Text: vkit.B(text), Rule: rule, Limit: lim}, w)
+						w.EvalRandom(vkit.Hash64("W", text, strconv.Itoa(rule), strconv.Itoa(lim)), true)
+					}
+				}
+			})
+			restore()
+		}
+	})
 
 	r.Phase(fmt.Sprintf("E: %d cold-start scenarios (which parser call comes first in a fresh process)", len(coldScenarios)), func() {
 		r.Serial(func(w *vkit.W) {
